@@ -175,25 +175,6 @@ _INT_RANGE = {
 }
 
 
-def _stride_preds_ok(proc, env):
-    it = Interp(budget=20000)
-    it.res = None
-    try:
-        from .refinterp import RunResult
-
-        it.res = RunResult()
-        it.cfg = env.get("__cfg__", {})
-        it.parstack = []
-        for p in proc.preds:
-            if it.ev(p, env) is not True:
-                return False
-        return not it.res.events
-    except Abort:
-        return False
-    except Exception:
-        return False
-
-
 def eval_expr(e, env, cfg=None):
     """evaluate a control expression with the reference evaluator"""
     from .refinterp import RunResult
@@ -202,6 +183,7 @@ def eval_expr(e, env, cfg=None):
     it.res = RunResult()
     it.cfg = cfg or {}
     it.parstack = []
+    it._nonint_const = False
     return it.ev(e, env)
 
 
